@@ -5,7 +5,8 @@ usage: c10_child.py '<json plan>'      (launched by harness/c10.py with
 
 plan = {"dir": scratch dir, "nfiles": 2..5, "workers": 1..4, "file": index
         of the file whose worker is hit, "point": name, "kind": "raise" |
-        "raise_ude" | "exit" | "bad_utf8" | "none", "k": ordinal for the
+        "raise_ude" | "raise_conn" | "raise_pipe" | "raise_eof" | "raise_os"
+        | "exit" | "bad_utf8" | "none", "k": ordinal for the
         counted points, "t1": seconds allowed for run 1, "t2": for run 2,
         "hold": seconds to stay at the point before firing (default 0),
         "park": optional {"file": j, "secs": s}: the worker of file j stays
@@ -70,6 +71,15 @@ def _fire():
         raise RuntimeError('injected fault')
     if kind == 'raise_ude':
         raise UnicodeDecodeError('utf-8', b'\xff', 0, 1, 'injected fault')
+    # what a reset / broken connection to the manager's queue looks like
+    if kind == 'raise_conn':
+        raise ConnectionResetError(104, 'Connection reset by peer')
+    if kind == 'raise_pipe':
+        raise BrokenPipeError(32, 'Broken pipe')
+    if kind == 'raise_eof':
+        raise EOFError()
+    if kind == 'raise_os':
+        raise OSError(5, 'Input/output error')
     raise AssertionError(kind)
 
 
@@ -90,7 +100,10 @@ def at(point):
         return
     n = CUR['counts'].get(point, 0) + 1
     CUR['counts'][point] = n
-    if n == PLAN.get('k', 1):
+    # a broken connection stays broken: 'queue_put' fails from the k-th
+    # hand-over of the victim's worker onwards
+    if n == PLAN.get('k', 1) or (point == 'queue_put' and
+                                 n > PLAN.get('k', 1)):
         _fire()
 
 
@@ -227,6 +240,16 @@ def install():
     RS.ResultStoreParallel.sync = sync
     RS.ResultStoreParallel._add_to_store = add_to_store
     T.gzip = GzipShim(T.gzip)
+    # BELOW the library: the stdlib proxy call behind Queue.put/put_nowait
+    # (so that put_result's own retry / error handling is exercised)
+    from multiprocessing.managers import BaseProxy
+    real_call = BaseProxy._callmethod  # pylint: disable=protected-access
+
+    def _callmethod(self, methodname, args=(), kwds=None):
+        if methodname in ('put', 'put_nowait'):
+            at('queue_put')
+        return real_call(self, methodname, args, kwds or {})
+    BaseProxy._callmethod = _callmethod  # pylint: disable=protected-access
     if PLAN.get('slow_submit'):
         # schedule steering only: the parent pauses after each submit() of
         # run 1, so that a worker can reach its fault point while the parent
